@@ -2,6 +2,6 @@ SPECIFICATION Spec
 CONSTANTS
   Mode = "tiles"
   MaxSegs = 0
-  Renderings = {0, 2}
+  Renderings = {0, 2, 3}
 INVARIANT InvTrue
 CHECK_DEADLOCK FALSE
